@@ -221,9 +221,9 @@ def operand_checks(ctx) -> None:
     okq = False
     if len(raises) == 1:
         gs = cfg.cguards(raises[0], cmp_init.node)
-        if len(gs) == 1 and gs[0][1] is False:
+        if len(gs) == 2 and all(pol is False for _, pol in gs):
             try:
-                t = ast.parse(gs[0][0], mode='eval').body
+                t = ast.BoolOp(op=ast.Or(), values=[ast.parse(g, mode='eval').body for g, _ in gs])
             except SyntaxError:
                 t = None
             if isinstance(t, ast.BoolOp) and isinstance(t.op, ast.Or) and len(t.values) == 2 and all(isinstance(v, ast.Call) and core.call_name(v) == 'all' and len(v.args) == 1 and isinstance(v.args[0], ast.GeneratorExp) and not isinstance(v.args[0].elt, ast.BoolOp) and not v.args[0].generators[0].ifs for v in t.values):
